@@ -396,6 +396,7 @@ class P_cif(StructureParser):
             When the data do not constitute a valid CIF format.
         """
         from CifFile import CifFile, StarError
+        from CifFile.yapps3_compiled_rt import YappsSyntaxError
 
         self.stru = None
         try:
@@ -408,7 +409,7 @@ class P_cif(StructureParser):
                     # stop after reading the first structure
                     if self.stru is not None:
                         break
-        except (StarError, ValueError, IndexError) as err:
+        except (YappsSyntaxError, StarError, ValueError, IndexError) as err:
             exc_type, exc_value, exc_traceback = sys.exc_info()
             emsg = str(err).strip()
             e = StructureFormatError(emsg)
